@@ -1,0 +1,7 @@
+//go:build verif && !amd64 && !arm64
+
+package sm4
+
+import "crypto/cipher"
+
+func verifRoundKeysAsm(b cipher.Block) (enc, dec [32]uint32, ok bool) { return }
